@@ -48,9 +48,14 @@ def make(k):
     return scaled
 
 
+_made = {}
+exec(compile("def made(x):\\n    y = x + 1\\n    return y\\n", "<string>", "exec"), _made)      # a function whose source is in no file
+made = profile(_made["made"])
+
+
 @profile
 def caller(n):
-    return hot(n) + hot(n // 2) + slow() + make(2)(n) + make(3)(n) + make(5)(1)
+    return hot(n) + hot(n // 2) + slow() + make(2)(n) + make(3)(n) + make(5)(1) + made(n)
 
 
 print(caller(%d))
